@@ -137,6 +137,21 @@ impl World {
         let mut note = String::new();
         let k = tok[0];
         if k == "end" {
+            // session loss: on a PDU boundary, 5 octets into a PDU header, or 10 octets into a 20-octet IPv4 Prefix PDU
+            let how = tok.get(1).copied().unwrap_or("clean");
+            if how != "clean" {
+                let pdu = encode(&rpki::Message::IpPrefix(rpki::Prefix {
+                    net: packet::IpNet::new("198.51.100.0".parse().unwrap(), 24),
+                    flags: 1,
+                    max_length: 24,
+                    as_number: 64999,
+                }));
+                let n = if how == "midhdr" { 5 } else { 10 };
+                let s = self.server.as_mut().unwrap();
+                let _ = s.write_all(&pdu[..n]).await;
+                let _ = s.flush().await;
+                tokio::time::sleep(std::time::Duration::from_millis(1)).await;
+            }
             self.server = None;
             if let Some(t) = self.task.take() {
                 if tokio::time::timeout(std::time::Duration::from_millis(WAIT_MS), t).await.is_err() {
